@@ -118,6 +118,7 @@ type CertSpec struct {
 	OCSP       []string `json:"ocsp,omitempty"`
 	OCSPSigner bool     `json:"ocspsigner,omitempty"` // EKU OCSPSigning
 	ForceSKI   bool     `json:"ski,omitempty"`        // subjectKeyIdentifier also on a non-CA certificate
+	Expired    bool     `json:"expired,omitempty"`    // notAfter lies in the past (2025-06-01)
 	SKIHex     string   `json:"ski_hex,omitempty"`    // explicit subjectKeyIdentifier (overrides the computed one)
 	NoEKU      bool     `json:"noeku,omitempty"`
 }
@@ -186,6 +187,9 @@ func Issue(spec CertSpec, parent *Cert) *Cert {
 		IsCA:                  spec.IsCA,
 		CRLDistributionPoints: spec.CDP,
 		OCSPServer:            spec.OCSP,
+	}
+	if spec.Expired {
+		tpl.NotAfter = time.Date(2025, 6, 1, 0, 0, 0, 0, time.UTC)
 	}
 	if tpl.SerialNumber.Sign() == 0 {
 		tpl.SerialNumber = big.NewInt(1)
